@@ -8,9 +8,9 @@ VARIABLE doc
 L(t, k, v) == [t |-> t, k |-> k, v |-> v]
 Alphabet == {L("open", n, "") : n \in Names} \cup {L("close", n, "") : n \in Names}
             \cup {L("kv", k, v) : k \in Keys, v \in Vals} \cup Extra
-ExtraFull == {L("key", "k3", ""), L("key", "k1", ""), L("nokey", "", "zz"), L("comment", "", "k1=zz"), L("blank", "", ""),
+ExtraFull == {L("key", "k3", ""), L("key", "k1", ""), L("nokey", "", "zz"), L("nokey", "", ""), L("nokey", "", "="), L("comment", "", "k1=zz"), L("blank", "", ""),
               L("hos", "k1", "x&y"), L("hcomment", "", " a&b")}
-ExtraSmall == {L("key", "k1", ""), L("comment", "", "k1=zz"), L("hos", "k2", "1<2")}
+ExtraSmall == {L("key", "k1", ""), L("nokey", "", "="), L("comment", "", "k1=zz"), L("hos", "k2", "1<2")}
 Init == doc = <<>>
 \* nothing after a mismatched close has a meaning: one more line is enough to see that it is ignored
 Next == /\ Len(doc) < MaxLen
@@ -22,6 +22,7 @@ IgnoreNoise == IgnoredLinesIgnored(doc)
 Merge == ConcatMerges(doc)
 Retrievable == WrittenRetrievable(doc) /\ WrittenRetrievableR(doc)
 BareReading == BareIsEmptyValue(doc)
+EmptyKey == EmptyKeyLinesAreLinesOnly(doc)
 TypedOK == TypedTotal(doc, Keys)
 FaultFrozen == LET r == Run(doc) IN (r.fault # 0 /\ r.fault < Len(doc)) =>
                   LET q == Run(SubSeq(doc, 1, r.fault)) IN q.dom = r.dom /\ q.stack = r.stack /\ q.fault = r.fault
